@@ -386,11 +386,20 @@ def xml_sig(s: dict, ind="      ") -> str:
             f"{ind}  <SignatureData>{base64.b64encode(s['data']).decode()}</SignatureData>\n{ind}</Signature>\n")
 
 
+# notation of the periods in a written policy: None = fmt_dur; otherwise a function returning a fmt_dur_as style per period
+# (the same period in another ISO 8601 spelling - P2W1D, PT360H, P14DT24H - is the same declared bound)
+POLICY_DUR_STYLE = [None]
+
+
+def _pol_dur(td: dt.timedelta) -> str:
+    return fmt_dur(td) if POLICY_DUR_STYLE[0] is None else fmt_dur_as(td, POLICY_DUR_STYLE[0]())
+
+
 def xml_policy(name: str, pol: dict, ind="      ") -> str:
     out = f"{ind}<{name}>\n"
     for tag, key in [("PublishSafety", "publish_safety"), ("RetireSafety", "retire_safety"), ("MaxSignatureValidity", "max_validity"),
                      ("MinSignatureValidity", "min_validity"), ("MaxValidityOverlap", "max_overlap"), ("MinValidityOverlap", "min_overlap")]:
-        out += f"{ind}  <{tag}>{fmt_dur(pol[key])}</{tag}>\n"
+        out += f"{ind}  <{tag}>{_pol_dur(pol[key])}</{tag}>\n"
     for a in pol["algs"]:
         if a[0] == "RSA":
             out += f'{ind}  <SignatureAlgorithm algorithm="{a[1]}">\n{ind}    <RSA size="{a[2]}" exponent="{a[3]}"/>\n{ind}  </SignatureAlgorithm>\n'
